@@ -423,6 +423,23 @@ def _check_counts(prog: Program, res: Result):
                 ok = False
                 if L is not None and hi_a is not None:
                     ok = hi_a.equals(one + L / bmin)
+                # a bound that is re-assigned under a condition (a clamp, a fallback) must satisfy the rule with that value too
+                bound_names = {x.id for x in ast.walk(n.args[1]) if isinstance(x, ast.Name)}
+                for alt in [a_ for a_ in ast.walk(fi.node) if isinstance(a_, ast.Assign) and len(a_.targets) == 1 and isinstance(a_.targets[0], ast.Name) and a_.targets[0].id in bound_names
+                            and a_.lineno < n.lineno and not any(a_ is top for top in fi.node.body)]:
+                    in_swap = find_swap(fi.node) and any(alt is y for y in ast.walk(find_swap(fi.node)[0]))
+                    if in_swap:
+                        continue
+                    st_alt = st.fork()
+                    eng._s_Assign(alt, st_alt)
+                    hi2 = eng.eval(n.args[1], st_alt)
+                    hi2_a = sym_single_call(hi2 - one, "floor") if isinstance(hi2, Rat) else None
+                    ok2 = L is not None and hi2_a is not None and hi2_a.equals(one + L / bmin)
+                    res.ob("R03.3", f"{fname}: count range {ast.unparse(n)} still ends at floor(L/b_min + 1) after '{norm_stmt(alt)[:40]}'", ok2, prog.loc(fi, alt))
+                    if not ok2:
+                        res.violation("R03.3", f"count-upper-alt|{fname}|{norm_stmt(alt)[:40]}", prog.loc(fi, alt), fi.qualname,
+                                      f"'{norm_stmt(alt)[:60]}' re-assigns the upper end of the count range {ast.unparse(n)}: with that value the range ends at {(hi2 - one).key()[:60] if isinstance(hi2, Rat) else '?'} + 1 "
+                                      "instead of floor(L / b_min + 1) - counts whose spacing is below b_min become possible")
                 res.ob("R03.3", f"{fname}: count range {ast.unparse(n)} ends at floor({L.key() if L is not None else '?'}/b_min + 1)", ok, prog.loc(fi, n))
                 if not ok:
                     res.violation("R03.3", f"count-upper|{fname}|{(hi - one).key()}", prog.loc(fi, n), fi.qualname,
@@ -997,6 +1014,8 @@ def _check_shapes(prog: Program, res: Result):
 
 
 VARIANTS = [
+    Variant("bi_rectangle_nested: an empty short-side range is clamped up to its lower end (seeded C03_h)", "break",
+            [(DOM, "    n_min = ceil(n_2_min)\n    n_max = floor(n_2_max)\n\n    bi_rectangle_nested_domain = []", "    n_min = ceil(n_2_min)\n    n_max = floor(n_2_max)\n    if n_max < n_min:\n        n_max = n_min\n\n    bi_rectangle_nested_domain = []")], "R03.3"),
     Variant("rectangular: columns added by a while loop that tests the spacing after the field was appended (seeded C03_g)", "break",
             [(DOM, "    for num_borehole in range(n_min, n_max + 1):\n        # Check to see if we bracket\n        b = length_1 / (num_borehole - 1)\n", "    num_borehole = n_min\n    while True:\n        b = length_1 / (num_borehole - 1)\n"),
              (DOM, "        num_borehole += 1  # noqa: PLW2901\n\n    return rectangle_domain, field_descriptors", "        if b <= b_min:\n            break\n        num_borehole += 1\n\n    return rectangle_domain, field_descriptors")], "R03.3"),
